@@ -769,7 +769,7 @@ def all_cases(seed, thorough):
                         yield dict(check=chk, mesh=name, params=params, shuffle=sh, sort_neighborhoods=True, hard=hard, opts=opts)
     # hard_edges entries explicitly set to False are not declared hard edges
     for name, params in [fm[0], fm[3], ('icosa', {})]:
-        yield dict(check='features', mesh=name, params=params, shuffle=None, sort_neighborhoods=True, hard=dict(mode='attr_false', seed=seed + 2, p=0.3), opts={})
+        yield dict(check='features', mesh=name, params=params, shuffle=None, sort_neighborhoods=True, hard=dict(mode='attr_false', seed=2, p=0.3), opts={})
     # planar non-convex quad next to a coplanar triangle (the face normal must not depend on the vertex the face starts with)
     for rot in range(4):
         for chk in ('features', 'corners'):
@@ -777,8 +777,24 @@ def all_cases(seed, thorough):
     # state carried from one run to the next
     for (name, params), fopts, opts in [(fm[0], {}, dict(only_border=True)), (fm[2], dict(corner_order=6), {}), (fm[11], dict(only_border=True), dict(corner_order=3)),
                                         (fm[6], dict(flag_corners=False), dict(compute_feature_graph=False))]:
-        yield dict(check='rerun', mesh=name, params=params, shuffle=None, sort_neighborhoods=True, hard=dict(mode='raw', seed=seed, p=0.5), opts=opts, first_opts=fopts,
+        yield dict(check='rerun', mesh=name, params=params, shuffle=None, sort_neighborhoods=True, hard=dict(mode='raw', seed=0, p=0.5), opts=opts, first_opts=fopts,
                    first=dict(mesh='grid', params=dict(nu=6, nv=6, tri=True, zamp=1.0, zseed=3), shuffle=None, hard=dict(mode='raw', seed=1, p=0.9)))
+    # random members: grids with random non-touching holes (cells with odd coordinates), random height fields, random declared edges
+    rnd = random.Random(seed * 7919 + 13)
+    for k in range(40 if thorough else 8):
+        nu, nv = rnd.randint(3, 8), rnd.randint(3, 8)
+        odd = [[i, j] for i in range(1, nu - 2, 2) for j in range(1, nv - 2, 2)]
+        removed = [c if rnd.random() < 0.6 else c + [rnd.randrange(2)] for c in odd if rnd.random() < 0.5]
+        tri = rnd.random() < 0.7
+        removed = [c for c in removed if tri or len(c) == 2]
+        params = dict(nu=nu, nv=nv, tri=tri, removed=removed, diag=rnd.choice(['alt', 'ac', 'bd']), zamp=rnd.choice([0.0, 0.3, 0.8, 1.5]) if tri else 0.0, zseed=rnd.randrange(1000))
+        sh = rnd.choice([None, rnd.randrange(1000)])
+        for chk in ('cycle', 'cycle_all', 'polyline'):
+            yield dict(check=chk, mesh='grid', params=params, shuffle=sh, sort_neighborhoods=True)
+        hard = rnd.choice([None, dict(mode='raw', seed=rnd.randrange(1000), p=0.5), dict(mode='attr', seed=rnd.randrange(1000), p=0.8)])
+        opts = rnd.choice(OPTS)
+        for chk in ('features', 'derived', 'corners'):
+            yield dict(check=chk, mesh='grid', params=params, shuffle=sh, sort_neighborhoods=True, hard=hard, opts=opts)
     # unsorted neighbourhoods (config.sort_neighborhoods = False): the statement does not fix the switch
     for name, params in [('grid', dict(nu=4, nv=4, tri=True)), ('annulus', dict(nr=2, nt=5, tri=True)), ('grid', dict(nu=3, nv=4, tri=False)), ('polygon', dict(n=5))]:
         for chk in ('cycle', 'cycle_all', 'polyline'):
@@ -796,7 +812,8 @@ def norm(d):
 
 def validate_family(seed, thorough):
     """every member of the family must be a consistently oriented manifold surface (isolated vertices allowed)"""
-    for name, params in border_meshes(seed, thorough) + feature_meshes(seed, thorough):
+    members = {json.dumps([d['mesh'], d['params']], sort_keys=True) for d in all_cases(seed, thorough)}
+    for name, params in (json.loads(x) for x in sorted(members)):
         pts, faces = raw_lists(dict(mesh=name, params=params))
         pr = [p for p in analyse(len(pts), faces)['problems'] if not p.startswith('unused vertices')]
         if pr:
